@@ -549,7 +549,9 @@ def write_query_markers_to_h5(
             data=json.dumps(reference_gene_names).encode('utf-8'))
 
         for parent_grp in marker_lookup:
-            out_grp = cache_file.create_group(parent_grp)
+            # (require_group, because a node named 'L2/3' has
+            # already created the group of its sibling 'L2')
+            out_grp = cache_file.require_group(parent_grp)
             these_reference = []
             these_query = []
             for gene in marker_lookup[parent_grp]:
